@@ -140,9 +140,14 @@ BlockSeq(v, path, i, st, lay, ind) ==
               ELSE Block(x, sub, Emit(s1, <<NL>>), lay, ind + lay.ind)
     IN BlockSeq(v, path, i + 1, s2, lay, ind)
 
+\* lay.lead empty lines come before the document (they count for the reported line numbers)
+RECURSIVE NLs(_)
+NLs(n) == IF n <= 0 THEN <<>> ELSE <<NL>> \o NLs(n - 1)
+Lead(lay) == IF "lead" \in DOMAIN lay THEN lay.lead ELSE 0
 Ser(D, fmt, lay) ==
-  IF fmt = "block" THEN Block(D, <<>>, W0, lay, 0)
-  ELSE Emit(Flow(D, <<>>, W0, fmt, lay, 0), <<NL>>)
+  LET w0 == Emit(W0, NLs(Lead(lay))) IN
+  IF fmt = "block" THEN Block(D, <<>>, w0, lay, 0)
+  ELSE Emit(Flow(D, <<>>, w0, fmt, lay, 0), <<NL>>)
 
 \* (line, column), both 0-based, of offset off in txt (columns count characters)
 RECURSIVE LineColFrom(_, _, _, _, _)
